@@ -435,7 +435,7 @@ def replay(case):
         c = dict(case)
         c["modes"] = ["lower"]
         return c01.replay(c)
-    sub = SubReporter(max_violations=50)
+    sub = SubReporter(max_violations=10**9)  # a replay never stops early
     sub.nontrivial = lambda t: None
     sub.part = lambda *a, **k: None
     sub.seed = case.get("seed", 1) - 1
